@@ -47,6 +47,15 @@ type caseSpec struct {
 	// management passes run concurrently with a rapidly panicking service worker.
 	Mgmt string `json:"mgmt,omitempty"`
 
+	// From (work part, service worker): the service worker is launched before its module
+	// was started: from the module's prep routine ("prep") or from the global prep
+	// function ("globalprep"); it panics once the module is online.
+	From string `json:"from,omitempty"`
+	// Notify (lifecycle part): a failure-update notify function is installed
+	// (SetFailureUpdateNotifyFunc): "trivial", or "reads" = it reads the state of the
+	// failing module and of the other modules.
+	Notify string `json:"notify,omitempty"`
+
 	// StdErr: leave the default stderr error report on (production default) or not.
 	StdErr bool `json:"stderr"`
 
